@@ -55,6 +55,12 @@ CHECKS = {
         text="TLC enumerates 2.3k cases over 6 endpoint roles (GM client, GM-only server, auto-switch server under GM and TLS, TLS client, TLS server) x client auth on/off x every position of the plaintext flight x {drop, duplicate, swap, inject or substitute each of 16 message kinds incl. RSA certificates where SM2 ones belong, 9 truncations / length-field perturbations, ChangeCipherSpec, application data, warning and fatal alerts, end of stream, ClientHello rewritten to 12 versions / 6 suite lists / no null compression}; the real endpoint must return an error, never report completion, never panic, and return once its input has ended; benign variations (re-fragmentation, a warning alert) must still complete.",
         note="Deviations are single ops applied to an otherwise honest flight (no keys are needed: the plaintext phase); encrypted-phase deviations (wrong Finished, records after CCS) are covered by C07/C08. Trusts the interposer's handshake-message reassembly. Hang detection: input ended after 0.6 s of silence, then 3 s to return.",
         ref="DESIGN.md section 5 C15"),
+    "C16": dict(
+        level="model_checking",
+        technique="TLA+ spec TLCPResume (client LRU cache, ordered ticket keys, resumption gate, configuration changes, ticket tampering) model-checked by TLC; TLC-generated histories (exhaustive connect-change-change-connect, simulated 6-op histories) replayed against real gmtls endpoints sharing one client session cache",
+        text="TLC checks on all histories of 6-7 operations (cache capacity 1 and 2) that a resumed connection continues an earlier full handshake with the same identity, suite and client-certificate status; every history connect / <=2 changes / connect and hundreds of simulated histories (rotations keeping or dropping old keys, suite list and ClientAuth changes on either side, tickets disabled, tampering per ticket region, cache capacity 1..3, two server names, GMSSL and TLS) run on the real code: each connection must resume exactly when the gate holds, never fail, agree on DidResume, suite and keys on both ends, carry the original master secret and client identity; single-byte ticket changes (every byte in thorough) must fall back to a full handshake.",
+        note="Server CipherSuites are always listed explicitly (the statement's positive clause). Trusts the accessors that expose the ticket of a cached client session. Histories beyond 7 operations are not model-checked.",
+        ref="DESIGN.md section 5 C16"),
     "C19": dict(
         level="model_checking",
         technique="TLA+ spec PadStream + refinement PadStreamImpl checked by TLC; TLC-generated environments replayed on the real objects; recorded traces validated by TLC (PadStreamTrace)",
